@@ -15,8 +15,12 @@
   *primitive file-system attempts* `Prim` (what `sys.addaudithook` sees in the
   real run: rmtree / remove / mkdir / open-for-write / chmod / utime / rename),
   every path passed through `norm`, the lexical resolution of `.`, `..`, `//`
-  that the OS performs (no symbolic links below the output directory: it has
-  just been wiped).  `resolve` additionally follows a table of symbolic links
+  that the OS performs.  That the lexical resolution is also the physical one rests on
+  there being no symbolic link below the output directory: it has just been wiped.  This
+  is made explicit by `Cfg.old` (the symbolic links lying in the old output directory / in
+  the graph directory before the run), `survivors` (which of them are still there after the
+  clean-up) and `runPhys` (every attempt at the physical path the OS resolves it to).
+  `resolve` additionally follows a table of symbolic links
   (used for the settings paths, `Path.resolve()`).
 -/
 import FordModel.Basic.Chars
@@ -204,6 +208,15 @@ def identFile (name : Str) (num : Nat) : Str := ident name num ++ ".html".toList
 
 /-! ### configuration and site -/
 
+/-- a symbolic link that lies, before the run, in a directory the run writes to (the old output
+    directory at any depth, the graph directory) -/
+structure OldLink where
+  loc : Path              -- where the link is (absolute; the directory it lies in is physical)
+  target : Path           -- the physical path it points to: anywhere on disk
+  isDir : Bool := false   -- ... which is a directory
+  kept : Bool := false    -- the attempt of the clean-up to remove it fails (injected fault)
+  deriving Repr, DecidableEq
+
 structure Cfg where
   repaired : Bool := false        -- variant: page-level copy_subdir targets outside the output dir are skipped
   dir : Path := []                -- project directory (absolute, physical)
@@ -221,6 +234,7 @@ structure Cfg where
   outMissing : Nat := 0           -- missing proper ancestors of the output dir
   gMissing : Nat := 0
   pre : List Path := []           -- paths existing before the run (outside the output dir)
+  old : List OldLink := []        -- symbolic links in the old output directory / in the graph directory
   deriving Repr
 
 structure PCopy where
@@ -254,10 +268,18 @@ def srcDirsN (c : Cfg) : List Path := c.srcDirs.map (normalisePath c.links c.dir
 def refuses (c : Cfg) : Bool :=
   (srcDirsN c).any (fun d => (d :: parents d).contains (outDir c))
 
-/-- graphviz `render` + rename, for one graph -/
-def graphOps (g : Path) (name : Str) : List Prim :=
+/-- graphviz `render` + rename, for one graph; `skip` = the paths at which `_create_image_file`
+    finds a symbolic link and therefore writes nothing (empty for the code as it is, see
+    `staleSkips`) -/
+def graphOps (skip : List Path) (g : Path) (name : Str) : List Prim :=
+  if skip.contains (sub g name) || skip.contains (sub g (name ++ ".svg".toList)) then []
+  else
   [⟨.mk, g⟩, ⟨.wr, sub g name⟩, ⟨.wr, sub g (name ++ ".svg".toList)⟩,
    ⟨.mvFrom, sub g name⟩, ⟨.mvTo, sub g (name ++ ".gv".toList)⟩]
+
+/-- the links `_create_image_file` refuses to write through: none unless it tests `is_symlink`
+    (`skipLinks` = generated constant `graphSkipsLinks`) -/
+def staleSkips (skipLinks : Bool) (c : Cfg) : List Path := if skipLinks then c.old.map (·.loc) else []
 
 def isProperPrefix (o p : Path) : Bool := o.isPrefixOf p && o.length < p.length
 
@@ -304,7 +326,7 @@ def pagesOps (c : Cfg) (o : Path) : List Path → List Page → List Prim
     ops ++ pagesOps c o (mkPaths ops ++ created) r
 
 /-- `Documentation.writeout` followed by `dump_modules` -/
-def writeOps (c : Cfg) (s : Site) : List Prim :=
+def writeOpsW (skipLinks : Bool) (c : Cfg) (s : Site) : List Prim :=
   let o := outDir c
   (if c.outKind = 1 then [⟨.rm, o⟩] else [⟨.rmtree, o⟩]) ++
   mkdirP o c.outMissing ++
@@ -312,7 +334,7 @@ def writeOps (c : Cfg) (s : Site) : List Prim :=
   (Generated.C19.libDirs.zip s.libs).flatMap (fun l => copyTree (sub o l.1) l.2) ++
   (if c.graph then
      match graphDir c with
-     | some g => mkdirP g c.gMissing ++ s.graphs.flatMap (graphOps g)
+     | some g => mkdirP g c.gMissing ++ s.graphs.flatMap (graphOps (staleSkips skipLinks c) g)
      | none => []
    else []) ++
   (if c.search then copyTree (sub o "search".toList) s.searchTree ++
@@ -332,9 +354,67 @@ def writeOps (c : Cfg) (s : Site) : List Prim :=
   [⟨.wr, sub o "index.html".toList⟩, ⟨.wr, sub o "search.html".toList⟩] ++
   (if c.externalize then [⟨.wr, sub o "modules.json".toList⟩] else [])
 
+def writeOps (c : Cfg) (s : Site) : List Prim := writeOpsW Generated.C19.graphSkipsLinks c s
+
 /-- the whole run: refusal happens in `parse_arguments`, before anything else -/
-def run (c : Cfg) (s : Site) : List Prim :=
-  if refuses c then [] else writeOps c s
+def runW (skipLinks : Bool) (c : Cfg) (s : Site) : List Prim :=
+  if refuses c then [] else writeOpsW skipLinks c s
+
+def run (c : Cfg) (s : Site) : List Prim := runW Generated.C19.graphSkipsLinks c s
+
+/-! ### what is left in the directories the run writes to, and where the attempts really land -/
+
+/-- emptying the output directory entry by entry
+    (`for e in out_dir.iterdir(): rmtree(e, ignore_errors=True) if e.is_dir() else e.unlink()`) instead of
+    removing it: `is_dir()` follows a symbolic link and `rmtree` refuses to work on one, so a link
+    to a directory that is an entry of the output directory itself is left alone (links deeper down
+    go with their real parent directory, which is removed without following them) -/
+def survivesEntrywise (o : Path) (l : OldLink) : Bool := l.loc.dropLast == o && l.isDir
+
+/-- the symbolic links that are still there when the run starts to write.  `whole`: the clean-up is
+    `shutil.rmtree(out_dir)` on the output directory itself (generated constant `wipeWholeTree`),
+    which unlinks every link below it without following it.  Links that are not below the output
+    directory (the graph directory is never cleaned) and links whose removal fails stay. -/
+def survivorsW (whole : Bool) (c : Cfg) : List OldLink :=
+  c.old.filter (fun l => !(outDir c).isPrefixOf l.loc || l.kept || (!whole && survivesEntrywise (outDir c) l))
+
+def survivors (c : Cfg) : List OldLink := survivorsW Generated.C19.wipeWholeTree c
+
+/-- follow the symbolic links of a table along a path that is already lexically resolved -/
+def followAux (links : List (Path × Path)) : List Seg → List Seg → Path
+  | st, [] => st.reverse
+  | st, s :: r =>
+    match links.lookup (s :: st).reverse with
+    | some t => followAux links t.reverse r
+    | none => followAux links (s :: st) r
+
+/-- `open`, `chmod`, `utime` act on what a link in the last component points to; `mkdir`, `unlink`,
+    `rmtree`, `rename`, `symlink` act on the entry itself -/
+def followsLast : PK → Bool
+  | .wr | .chmod | .utime => true
+  | _ => false
+
+/-- where the OS performs an attempt, given the symbolic links that exist -/
+def physical (ls : List OldLink) (k : PK) (p : Path) : Path :=
+  let tbl := ls.map (fun l => (l.loc, l.target))
+  if followsLast k then followAux tbl [] p
+  else match p.getLast? with
+    | some last => followAux tbl [] p.dropLast ++ [last]
+    | none => []
+
+/-- the run as the file system sees it: the clean-up (first attempt) acts on the output directory
+    itself; every later attempt is resolved through the links that survived it.  `fatal`: a failing
+    `out_dir.mkdir` - the directory is still there because a removal failed - ends the run
+    (generated constant `wipeFailureFatal`; the code as it is prints a message and goes on). -/
+def runPhysW (whole fatal skipLinks : Bool) (c : Cfg) (s : Site) : List Prim :=
+  match runW skipLinks c s with
+  | [] => []
+  | w :: r =>
+    if fatal && c.old.any (fun l => (outDir c).isPrefixOf l.loc && l.kept) then w :: r.take 1
+    else w :: r.map (fun p => ⟨p.kind, physical (survivorsW whole c) p.kind p.path⟩)
+
+def runPhys (c : Cfg) (s : Site) : List Prim :=
+  runPhysW Generated.C19.wipeWholeTree Generated.C19.wipeFailureFatal Generated.C19.graphSkipsLinks c s
 
 /-! ### the property vocabulary -/
 
